@@ -468,7 +468,11 @@ func genC12(c *Ctx) {
 							j.bad = fmt.Sprintf("panic: %v", r)
 						}
 					}()
+					t0 := time.Now()
 					j.run(j)
+					if d := time.Since(t0); d > 3*time.Second && os.Getenv("C12_DEBUG") != "" {
+						fmt.Fprintf(os.Stderr, "slow job %s %v %s\n", j.kind, d, trunc(j.in.String(), 150))
+					}
 				}()
 			}
 		}()
@@ -683,7 +687,11 @@ func c12SoakIdleDrop() (fails []c12Fail) {
 				fc.send(c12Answer(q.id, sum[:]))
 			}
 		}
-		<-done
+		select {
+		case <-done:
+		case <-time.After(5 * time.Second):
+			return false // hangs past its 500 ms deadline
+		}
 		sum := sha256.Sum256(key)
 		return rerr == nil && string(res) == string(sum[:])
 	}
@@ -703,7 +711,7 @@ func c12SoakIdleDrop() (fails []c12Fail) {
 	l.mu.Unlock()
 	t0 := time.Now()
 	const bound = 15 * time.Second // two ping periods of 3 s + margin
-	if !c12Wait(bound, func() bool { _, g := l.current(); return g >= g0+2 && cl.IsOK() }) {
+	if !c12Wait(bound, func() bool { _, g := l.current(); return g >= g0+2 && c12IsOK(cl) }) {
 		_, g := l.current()
 		fail("no-reconnect-idle", fmt.Sprintf("%d of 2 idle connections re-established %v after the server closed them", g-g0, bound))
 		return fails
